@@ -874,6 +874,11 @@ func (p *ReverseProxy) copyResponse(dst io.Writer, src io.ReadCloser,
 	// Note: cancelOnClientClose feature must be enabled for AVS client (over http2)
 	if cancelOnClientClose {
 		if cn, ok := dst.(bfe_http.CloseNotifier); ok {
+			// Set the notifier up here and not in the watcher goroutine: it puts
+			// a reader of its own on the client connection, and this goroutine is
+			// about to read the rest of the request body (when the response header
+			// is written). Two readers on the connection would share its bytes.
+			cn.CloseNotify()
 			cw := bfe_http.NewCloseWatcher(cn, func() {
 				// Note: src is type of bfe_http.bodyEofSignal. Close() on src will
 				// close the underlying connection if response not ready.
